@@ -1,4 +1,269 @@
+(* Types/Decl.v -- the declarative subtype relation induced by the class hierarchy,
+   declaration-site variance, use-site projections and type-parameter bounds, in
+   syntax-directed (algorithmic) form, together with an executable tri-state checker.
+
+   Use-site projections on the LEFT of a judgement are read existentially and opened
+   (capture conversion): C<out U> is  exists X <: U. C<X>,  C<in L> is  exists X :> L. C<X>,
+   C<*> is  exists X. C<X>.  The opened arguments are abstract types TCap carrying their
+   bounds; their identity is the path of the judgement that opened them, so two different
+   openings never produce equal abstract types.  Declared supertypes are instantiated with
+   the OPENED arguments (not textually with the projections).
+
+   Definitions only. *)
 From Coq Require Import List Arith Bool.
 Import ListNotations.
-From Heph Require Import Types.Syntax Types.Subst Types.Subtype Types.Corr.
-Definition group_unsound (fuel g : nat) (gs : list sub_group) : list (nat * nat) := [].
+From Heph Require Import Types.Syntax Types.Subst Types.Subtype.
+
+(* equality of types at invariant positions: syntactic, and -- as everywhere in the IR --
+   a primitive built-in and its boxed class are the same type *)
+Definition deq (a b : ty) : bool := py_eqb a b.
+
+Definition bsupers (w : world) (b : nat) : list nat :=
+  match find_builtin w b with Some bi => b_supers bi | None => [] end.
+
+(* capture conversion of the i-th argument of a type opened at path p *)
+Definition open_arg (p : list nat) (i : nat) (a : ty) : ty :=
+  match a with
+  | TWild Cov (Some u) => TCap (p ++ [i]) (Some u) None
+  | TWild Contra (Some l) => TCap (p ++ [i]) None (Some l)
+  | TWild _ None => TCap (p ++ [i]) None None
+  | _ => a
+  end.
+
+Fixpoint open_args (p : list nat) (i : nat) (args : list ty) : list ty :=
+  match args with
+  | [] => []
+  | a :: args' => open_arg p i a :: open_args p (S i) args'
+  end.
+
+(* instantiate a declared supertype of class d with (opened) arguments: plain substitution *)
+Definition inst_super (d : cdecl) (oargs : list ty) (s : ty) : ty :=
+  subst false (mk_map (c_params d) oargs) s.
+
+Inductive tri := Yes | No | Unk.
+
+Section W.
+  Context (w : world).
+
+  Inductive SubA : list nat -> ty -> ty -> Prop :=
+  | A_Nothing p t : SubA p TNothing t
+  | A_BotBuiltin p b pr t : is_bottom_builtin w b = true -> SubA p (TBuiltin b pr) t
+  | A_BuiltinRefl p b pr pr' : SubA p (TBuiltin b pr) (TBuiltin b pr')
+  | A_BuiltinUp p b b' t :
+      In b' (bsupers w b) -> SubA (p ++ [0]) (TBuiltin b' false) t -> SubA p (TBuiltin b false) t
+  | A_ClassRefl p c : SubA p (TClass c) (TClass c)
+  | A_ClassUp p c d s t :
+      find_class w c = Some d -> In s (c_supers d) -> SubA (p ++ [0]) s t -> SubA p (TClass c) t
+  | A_VarRefl p x v b t : deq (TVar x v b) t = true -> SubA p (TVar x v b) t
+  | A_VarUp p x v b t : SubA (p ++ [0]) b t -> SubA p (TVar x v (Some b)) t
+  | A_CapRefl p i u l t : deq (TCap i u l) t = true -> SubA p (TCap i u l) t
+  | A_CapUp p i u l t : SubA (p ++ [0]) u t -> SubA p (TCap i (Some u) l) t
+  | A_CapLow p i u l s : SubA (p ++ [0]) s l -> SubA p s (TCap i u (Some l))
+  | A_AppArgs p c d args bargs :
+      find_class w c = Some d ->
+      length args = length (c_params d) -> length bargs = length (c_params d) ->
+      ContA p 0 (c_params d) (open_args p 0 args) bargs ->
+      SubA p (TApp c args) (TApp c bargs)
+  | A_AppUp p c d args s t :
+      find_class w c = Some d -> length args = length (c_params d) ->
+      In s (c_supers d) ->
+      SubA (p ++ [1]) (inst_super d (open_args p 0 args) s) t ->
+      SubA p (TApp c args) t
+  (* containment of the opened arguments in the arguments of the right-hand type *)
+  with ContA : list nat -> nat -> list ty -> list ty -> list ty -> Prop :=
+  | C_Nil p i : ContA p i [] [] []
+  | C_Cons p i prm ps a l1 b l2 :
+      Cont1 (p ++ [2; i]) prm a b -> ContA p (S i) ps l1 l2 -> ContA p i (prm :: ps) (a :: l1) (b :: l2)
+  with Cont1 : list nat -> ty -> ty -> ty -> Prop :=
+  | C_Star q prm a v : Cont1 q prm a (TWild v None)
+  | C_Out q prm a bb : SubA q a bb -> Cont1 q prm a (TWild Cov (Some bb))
+  | C_In q prm a bb : SubA q bb a -> Cont1 q prm a (TWild Contra (Some bb))
+  | C_Inv q prm a b : is_wild b = false -> tvar_variance prm = Inv -> deq a b = true -> Cont1 q prm a b
+  | C_Cov q prm a b : is_wild b = false -> tvar_variance prm = Cov -> SubA q a b -> Cont1 q prm a b
+  | C_Contra q prm a b : is_wild b = false -> tvar_variance prm = Contra -> SubA q b a -> Cont1 q prm a b.
+
+  (* ---------------- executable tri-state checker ---------------- *)
+  Definition tor (a b : tri) : tri :=
+    match a, b with
+    | Yes, _ | _, Yes => Yes
+    | Unk, _ | _, Unk => Unk
+    | No, No => No
+    end.
+
+  Definition tand (a b : tri) : tri :=
+    match a, b with
+    | No, _ | _, No => No
+    | Unk, _ | _, Unk => Unk
+    | Yes, Yes => Yes
+    end.
+
+  Definition tany {A} (f : A -> tri) (l : list A) : tri := fold_right (fun x acc => tor (f x) acc) No l.
+  Definition tob (b : bool) : tri := if b then Yes else No.
+
+  Fixpoint sub_ref (fuel : nat) (p : list nat) (s t : ty) {struct fuel} : tri :=
+    match fuel with
+    | O => Unk
+    | S f =>
+        (* rules whose conclusion has a captured type with a lower bound on the right *)
+        let low := match t with
+                   | TCap _ _ (Some l) => sub_ref f (p ++ [0]) s l
+                   | _ => No
+                   end in
+        let left :=
+          match s with
+          | TNothing => Yes
+          | TBuiltin b pr =>
+              if is_bottom_builtin w b then Yes
+              else tor (match t with TBuiltin b' _ => tob (Nat.eqb b b') | _ => No end)
+                       (if pr then No
+                        else tany (fun b' => sub_ref f (p ++ [0]) (TBuiltin b' false) t) (bsupers w b))
+          | TClass c =>
+              tor (match t with TClass c' => tob (Nat.eqb c c') | _ => No end)
+                  (match find_class w c with
+                   | Some d => tany (fun s' => sub_ref f (p ++ [0]) s' t) (c_supers d)
+                   | None => No
+                   end)
+          | TVar x v b =>
+              tor (tob (deq s t))
+                  (match b with Some b' => sub_ref f (p ++ [0]) b' t | None => No end)
+          | TCap i u l =>
+              tor (tob (deq s t))
+                  (match u with Some u' => sub_ref f (p ++ [0]) u' t | None => No end)
+          | TApp c args =>
+              match find_class w c with
+              | None => No
+              | Some d =>
+                  if negb (Nat.eqb (length args) (length (c_params d))) then No
+                  else
+                    let oargs := open_args p 0 args in
+                    let same :=
+                      match t with
+                      | TApp c' bargs =>
+                          if Nat.eqb c c' && Nat.eqb (length bargs) (length (c_params d)) then
+                            (fix go (i : nat) (ps l1 l2 : list ty) : tri :=
+                               match ps, l1, l2 with
+                               | [], [], [] => Yes
+                               | prm :: ps', a :: l1', b :: l2' =>
+                                   let q := p ++ [2; i] in
+                                   let one :=
+                                     match b with
+                                     | TWild _ None => Yes
+                                     | TWild Cov (Some bb) => sub_ref f q a bb
+                                     | TWild Contra (Some bb) => sub_ref f q bb a
+                                     | TWild Inv (Some _) => No
+                                     | _ => match tvar_variance prm with
+                                            | Inv => tob (deq a b)
+                                            | Cov => sub_ref f q a b
+                                            | Contra => sub_ref f q b a
+                                            end
+                                     end in
+                                   tand one (go (S i) ps' l1' l2')
+                               | _, _, _ => No
+                               end) 0 (c_params d) oargs bargs
+                          else No
+                      | _ => No
+                      end in
+                    tor same (tany (fun s' => sub_ref f (p ++ [1]) (inst_super d oargs s') t) (c_supers d))
+              end
+          | TCon _ => No
+          | TWild _ _ => No
+          end in
+        tor left low
+    end.
+
+  (* ---------------- fragments ---------------- *)
+
+  Fixpoint no_cap (t : ty) : bool :=
+    match t with
+    | TCap _ _ _ => false
+    | TApp _ l => forallb no_cap l
+    | TVar _ _ (Some b) => no_cap b
+    | TWild _ (Some b) => no_cap b
+    | _ => true
+    end.
+
+  (* no type variables, constructors, wildcards, captures anywhere: plain closed types *)
+  Fixpoint plain_closed (t : ty) : bool :=
+    match t with
+    | TBuiltin _ _ | TClass _ | TNothing => true
+    | TApp _ l => forallb plain_closed l
+    | _ => false
+    end.
+
+  (* the fragment of the property's exactness claim: non-generic classes, non-primitive
+     built-ins (not the bottom ones) and instantiations of generic classes with such types or
+     bounded projections of them *)
+  Fixpoint ground (t : ty) : bool :=
+    match t with
+    | TBuiltin b prim => negb prim && negb (is_bottom_builtin w b)
+    | TClass _ => true
+    | TApp c l =>
+        forallb (fun a => match a with
+                          | TWild Cov (Some b) | TWild Contra (Some b) => negb (is_wild b) && ground b
+                          | TWild _ _ => false
+                          | _ => ground a
+                          end) l
+    | _ => false
+    end.
+
+  (* projection-free part of the ground fragment *)
+  Fixpoint ground_pf (t : ty) : bool :=
+    match t with
+    | TBuiltin b prim => negb prim && negb (is_bottom_builtin w b)
+    | TClass _ => true
+    | TApp c l => forallb ground_pf l
+    | _ => false
+    end.
+
+  (* arities match everywhere and every class mentioned is declared *)
+  Fixpoint arity_ok (t : ty) : bool :=
+    match t with
+    | TApp c l =>
+        match find_class w c with
+        | Some d => Nat.eqb (length l) (length (c_params d)) && negb (Nat.eqb (length l) 0) && forallb arity_ok l
+        | None => false
+        end
+    | TClass c => match find_class w c with Some d => Nat.eqb (length (c_params d)) 0 | None => false end
+    | TVar _ _ (Some b) => arity_ok b
+    | TWild _ (Some b) => arity_ok b
+    | TCap _ u l => match u with Some x => arity_ok x | None => true end &&
+                    match l with Some x => arity_ok x | None => true end
+    | _ => true
+    end.
+
+  (* well-formed type: arities match, no bare constructor, wildcards only as type arguments
+     and never in conflict with the declared variance (Kotlin rejects such projections and
+     _get_type_arg_variance never produces them), bounds of projections are proper types *)
+  Fixpoint wf_ty (fuel : nat) (t : ty) {struct fuel} : bool :=
+    match fuel with
+    | O => false
+    | S f =>
+        match t with
+        | TBuiltin _ _ | TNothing => true
+        | TClass c => match find_class w c with Some d => Nat.eqb (length (c_params d)) 0 | None => false end
+        | TCon _ => false
+        | TWild _ _ => false
+        | TCap _ _ _ => false
+        | TVar _ _ None => true
+        | TVar _ _ (Some b) => wf_ty f b
+        | TApp c l =>
+            match find_class w c with
+            | None => false
+            | Some d =>
+                Nat.eqb (length l) (length (c_params d)) && negb (Nat.eqb (length l) 0) &&
+                (fix go (ps l : list ty) : bool :=
+                   match ps, l with
+                   | prm :: ps', a :: l' =>
+                       (match a with
+                        | TWild _ None => true
+                        | TWild Inv (Some _) => false
+                        | TWild v (Some b) =>
+                            (var_eqb (tvar_variance prm) Inv || var_eqb (tvar_variance prm) v) && wf_ty f b
+                        | _ => wf_ty f a
+                        end) && go ps' l'
+                   | _, _ => true
+                   end) (c_params d) l
+            end
+        end
+    end.
+End W.
